@@ -111,6 +111,9 @@ func init() {
 			out = append(out, Instance{Scenario: "c10_cb", Params: mustJSON(CBParams{Initial: 2, Event: "ghost", Perms: 1}), Bound: 0, Shards: 2, Note: "the index lists an instance whose document does not exist (died during registration)"})
 			out = append(out, Instance{Scenario: "c10_cb", Params: mustJSON(CBParams{Initial: 3, Event: "replace", Perms: 1}), Bound: 0, Shards: 4, Note: "an instance is replaced (dies, another registers before the death is noticed): the members that keep number and size announce nothing"})
 			out = append(out, Instance{Scenario: "c10_cb", Params: mustJSON(CBParams{Initial: 2, Event: "replace", Perms: 1}), Bound: 0, Shards: 2})
+			out = append(out, Instance{Scenario: "c10_cb", Params: mustJSON(CBParams{Initial: 3, Event: "die-writefail", Perms: 1}), Bound: 0, Shards: 2, Note: "the index rewrite of the round that notices a death fails: a later round carries the change out"})
+			out = append(out, Instance{Scenario: "c10_cb", Params: mustJSON(CBParams{Initial: 2, Event: "die-writefail", Perms: 1}), Bound: 0, Shards: 2})
+			out = append(out, Instance{Scenario: "c10_cb", Params: mustJSON(CBParams{Initial: 3, Event: "die-join-race", Perms: 1}), Bound: 0, Shards: 4, Note: "a registration at every point of the monitor round that is about to drop a dead instance (between its read of the index and its rewrite): the newcomer is admitted"})
 			out = append(out, Instance{Scenario: "c10_cb", Params: mustJSON(CBParams{Initial: 3, Event: "hblost", Perms: 1}), Bound: 0, Shards: 4, Note: "the heart-beats of one running instance no longer reach the bucket"})
 			for tm := 1; tm <= 2; tm++ {
 				for _, ev := range []string{"join", "die"} {
@@ -279,6 +282,51 @@ func cbMain(p CBParams) {
 		round(false) // its last heart-beat is 60 s old now: still inside the tolerance
 		join()
 		hist = append(hist, "join")
+	case "die-writefail":
+		// an instance dies; in the round in which the oldest member notices it, its rewrite of the shared index is
+		// answered with a temporary failure (or loses the compare-and-swap race to nobody in particular): the
+		// change has not taken effect - a later round notices it again and carries it out
+		l := live()
+		v := l[len(l)-1]
+		v.alive = false
+		hist = append(hist, fmt.Sprintf("die(%d)", v.joinIdx))
+		round(false)
+		round(false)
+		kind := vrt.Choose(2, true, "index-write-fault")
+		armed := true
+		c.Fault = func(r *gocbcore.SimRequest) gocbcore.SimAnswer {
+			if armed && r.Kind == "mutatein" && strings.HasSuffix(r.Key, ":all") {
+				armed = false
+				if kind == 0 {
+					return gocbcore.SimAnswer{Kind: "err", Err: &gocbcore.KeyValueError{InnerError: gocbcore.ErrTemporaryFailure, StatusCode: memd.StatusTmpFail}}
+				}
+				return gocbcore.SimAnswer{Kind: "drop"}
+			}
+			return gocbcore.SimAnswer{}
+		}
+		hist = append(hist, []string{"next index rewrite: temporary failure", "next index rewrite: never answered"}[kind])
+	case "die-join-race":
+		// an instance has died and its death is about to be noticed by the oldest member; a new instance registers
+		// at every scheduling point of that member's monitor round (between its read of the index and its rewrite)
+		l := live()
+		v := l[len(l)-1]
+		v.alive = false
+		hist = append(hist, fmt.Sprintf("die(%d)", v.joinIdx))
+		round(false)
+		round(false)
+		vrt.Sleep(30 * time.Second)
+		for _, in := range live() {
+			couchbase.VerifCBHeartbeat(in.m)
+		}
+		k := vrt.Choose(40, true, "join-at-point")
+		done := false
+		vrt.Window(true)
+		vrt.InjectAtomic("monitor0", k, func() { join() })
+		vrt.GoNamed("monitor0", func() { couchbase.VerifCBMonitor(insts[0].m); done = true })
+		vrt.Block("monitor finished", func() bool { return done })
+		vrt.Window(false)
+		vrt.Quiesce()
+		hist = append(hist, fmt.Sprintf("monitor(0)||join@%d", k))
 	case "hblost":
 		l := live()
 		v := l[vrt.Choose(len(l), true, "victim")]
